@@ -5,6 +5,58 @@ from props import dedup_common as dc
 LEVEL = 'proof'
 
 
+def racing_writer(ctx, n):
+    """A file is rewritten by another process between the two reads vsb makes of it (hashing pass, rewind,
+    archiving pass) while a later file still holds the old bytes: whatever vsb stores, every extern record of
+    the published backup must still have its unique record.  The rewrite is staged by the interposer exactly
+    at the rewind."""
+    import os, random
+    from vlib import hist
+    done = 0
+    for i in range(n):
+        rng = random.Random(ctx.seed * 1000 + i)
+        w = hist.World(ctx, 8000 + i, rng, max_groups=2, max_per_group=3, nitems=2)
+        try:
+            size = rng.choice([33, 4096, 5000, 70000])
+            victim = os.path.join(w.items[0], 'victim')
+            w.write(victim, 500 + i, size)
+            for k in range(rng.randint(1, 3)):
+                w.write(os.path.join(w.items[1], 'copy%d' % k), 500 + i, size)
+            if rng.random() < 0.5:
+                w.backup(advance=10)
+                w.fresh_mtime(victim)
+                for k in range(3):
+                    p = os.path.join(w.items[1], 'copy%d' % k)
+                    if os.path.exists(p):
+                        w.fresh_mtime(p)
+                if rng.random() < 0.5:
+                    w.write(victim, 900 + i, size)
+                    for k in range(3):
+                        p = os.path.join(w.items[1], 'copy%d' % k)
+                        if os.path.exists(p):
+                            w.write(p, 900 + i, size)
+            action = 'lseek@%s@1=write-at:%d:%d' % (os.path.realpath(victim), rng.choice([0, size // 2]), max(1, size // 3))
+            r = w.backup(advance=10, shim_env={'ACTION': action, 'WATCH': os.path.realpath(w.items[0])})
+            dec = w.decode_storage(with_entries=False)
+            for g in dec:
+                seen = set()
+                for b in sorted(dec[g]):
+                    recs = dec[g][b]['records']
+                    if recs is None:
+                        continue
+                    for rec in recs:
+                        if rec['unique']:
+                            seen.add(rec['hash'])
+                        elif rec['size'] > 0 and rec['hash'] not in seen:
+                            ctx.violation('property', 'racing writer: extern record %s of %s/%s (hash %s...) has no unique record in its group'
+                                          % (rec['path'], g, b, rec['hash'][:16]),
+                                          {'case': {'scenario': 'racing-writer', 'index': i, 'size': size, 'action': action}, 'rc': r.rc})
+            done += 1
+        finally:
+            w.cleanup()
+    return done
+
+
 def check(ctx):
     aud = core.audit(ctx.prop)
     core.report_audit(ctx, aud)
@@ -15,6 +67,7 @@ def check(ctx):
         return
     store.ensure_shim()
     steps = dc.run_all(ctx, 50, 700)
+    races = racing_writer(ctx, 4 if ctx.tier == 'quick' else 40)
     pub, st = dc.correspond(ctx, steps, dc.oracle_c02, 'dedup')
     distinct = {core.canon(dc.model_request(s)) for s in pub if s['earlier'] and len(s['new']['records'] or []) >= 2}
     ctx.coverage.update({
@@ -25,7 +78,7 @@ def check(ctx):
                 'non-trivial = a run appending to an existing group with at least two file records; distinct by model request',
         'samples': [dc.model_request(pub[0])] if pub else [],
         'correspondence': st, 'distribution': dc.stats(steps, pub),
-        'disagreements_checked': st['cases'],
+        'disagreements_checked': st['cases'], 'racing_writer_runs': races,
     })
     ctx.assumptions += ['every content change also changes (device, inode, mtime) — the generator gives each written file a fresh mtime',
-                        'sources static during a run', 'SHA-512 collision-free on the generated contents']
+                        'SHA-512 collision-free on the generated contents']
